@@ -91,6 +91,10 @@ class PhasePredictor(QTable):
             tstop = self["tmid"] + self["span"] / 2
             intervals = sorted(zip(tstart, tstop), key=lambda x: x[1])
 
+            if not intervals:
+                self._intervals = ()
+                return self._intervals
+
             merged = []
             start, end = intervals.pop()
             while intervals:
@@ -108,7 +112,7 @@ class PhasePredictor(QTable):
     def _get_index_and_dt(self, times):
         """Check if timestamps are within predictor range."""
         check = ((a <= times) & (times <= b) for a, b in self.intervals)
-        check = functools.reduce(operator.or_, check)
+        check = functools.reduce(operator.or_, check, False)
 
         if not np.all(check):
             raise ValueError("Some timestamps outside predictor range!")
